@@ -50,6 +50,8 @@ class Gen:
                 h.append("reset"); fill = 0
             elif r < 0.80:
                 h.append(rng.choice(["rspace", "wspace", "cap"]))
+                if rng.random() < 0.1:   # sizes zix_ring_new must refuse (the rounding wraps to zero), and the largest it accepts
+                    h.append("newbad %d" % rng.choice([0, 2 ** 31 + 1, 2 ** 32 - 1, 2 ** 31 + rng.randint(1, 2 ** 31 - 1), 3 * 2 ** 30]))
             else:
                 h.append("begin"); amended = 0; fill0 = fill
                 for _ in range(rng.randint(0, 4)):
